@@ -9,6 +9,8 @@ def chk(pid, technique, text, note, design):
     CHECKS[pid] = dict(technique=technique, text=text, note=note, design=design)
 
 exec(open(os.path.join(ROOT, 'tools', 'manifest_table.py')).read())
+for _pid, _txt in ADDENDA.items():
+    CHECKS[_pid]['text'] += ' ' + _txt
 
 hooks_commits = []
 man = {
